@@ -20,7 +20,7 @@ from rv.models.ring import Ring
 DT = {"float32": torch.float32, "float64": torch.float64, "int64": torch.int64, "bool": torch.bool,
       "int32": torch.int32}
 
-_INV = {"installed": False, "evals": 0}
+_INV = {"installed": False, "evals": 0, "record_only": False, "recorded": []}
 
 
 class InvariantBroken(Exception):
@@ -33,11 +33,12 @@ def pointer_in_range(self):
         p, n = self.pointer, self.recordsz
     except Exception:  # owner gone / half-constructed
         return True
-    if not (0 <= p < n):
-        return False
-    if self.ignored and p != 0:
-        return False
-    return True
+    ok = (0 <= p < n) and not (self.ignored and p != 0)
+    if not ok and _INV["record_only"]:
+        if len(_INV["recorded"]) < 20:
+            _INV["recorded"].append(f"pointer={p} recordsz={n} ignored={self.ignored}")
+        return True
+    return ok
 
 
 def install_invariant():
@@ -475,3 +476,4 @@ def _resync(rt, model):
 
 def finish(ctx):
     ctx.counters["invariant_evaluations"] = _INV["evals"]
+
